@@ -30,13 +30,13 @@ REQUIRED = ["route.list", "route.one-by-one", "route.scenario", "route.xml", "ro
             "kind.adjacent", "kind.crossing", "kind.nested", "provenance.placed-angle-0", "provenance.placed",
             "provenance.translate_rotate", "provenance.deepcopy", "provenance.after-setters",
             "provenance.source-object-used-before",
-            "obstacle-absent-at-query-time", "contains_points.single-point", "route.deferred-index", "route.pending-index", "qshape.u-polygon-around-lanelet-end", "route.deferred-remove",
+            "obstacle-absent-at-query-time", "contains_points.single-point", "route.deferred-index", "route.pending-index", "route.merged", "qshape.u-polygon-around-lanelet-end", "route.deferred-remove",
             "route.translate-before-index"]
 ASSUMPTIONS = ["lanelet polygons are simple (strips with strictly increasing abscissa)",
                "circle queries within 0.2% of the radius of a boundary are not judged (shapely discs are 64-gons)"]
 SHARDS = {"quick": 4, "thorough": 16}
 ROUTES = ["list", "one-by-one", "scenario", "xml", "protobuf", "deepcopy", "pickle", "cutout-copy", "add-remove-add",
-          "copy-then-edit-both", "deferred-index", "deferred-remove", "translate-before-index", "pending-index"]
+          "copy-then-edit-both", "deferred-index", "deferred-remove", "translate-before-index", "pending-index", "merged"]
 
 
 def build(route, lanelets, rng):
@@ -75,6 +75,18 @@ def build(route, lanelets, rng):
         res = [(route + "-removed", copy.copy(net))] if False else []
         net.add_lanelet(copy.deepcopy(victim))
         return res + [(route, net)]
+    if route == "merged":
+        # the network grows by the lanelets of ANOTHER network (add_lanelets_from_network); an id that exists already is
+        # refused with a warning -- what was accepted before it belongs to the network like any other lanelet
+        k_ = max(1, len(ls) // 2)
+        net = LaneletNetwork.create_from_lanelet_list(ls[:k_])
+        other = LaneletNetwork()
+        for la in ls[k_:]:
+            other.add_lanelet(la)
+        if rng.random() < 0.6 or len(ls) < 2:
+            other.add_lanelet(copy.deepcopy(ls[0]))   # clashes with a lanelet of the receiving network
+        net.add_lanelets_from_network(other)
+        return [("merged", net)]
     if route == "pending-index":
         # a lanelet was added with rtree=False and the index has NOT been re-built yet (documented batch usage: look-ups
         # through the index are the caller's business until then). The queries that are defined on the lanelets' polygons
